@@ -379,6 +379,26 @@ func c16NewCase(scn string, gsGiven bool) *c16Case {
 		c.start(1, "perr", c16ProgErrNest)
 	case "errinf":
 		c.start(1, "perr", c16ProgErrInf)
+	// suspended at an active break point reached DURING a pending step-over / step-out
+	// (the step branch of VisitState; such stops exist since fix ea3a1ee)
+	case "stepbp1": // step over the top-level call, break point two calls deep
+		c.dbg.SetBreakPoint("nest", 14)
+		c.dbg.SetBreakPoint("nest", 6)
+		c.start(1, "nest", c16ProgNest)
+		c.quiesce()
+		c.dbg.Continue(1, util.StepOver)
+	case "stepbp2": // step out of the innermost function, break point on its next line
+		c.dbg.SetBreakPoint("nest", 2)
+		c.dbg.SetBreakPoint("nest", 3)
+		c.start(1, "nest", c16ProgNest)
+		c.quiesce()
+		c.dbg.Continue(1, util.StepOut)
+	case "stepbp3": // step over a call inside a function, break point two calls further in
+		c.dbg.SetBreakPoint("nest", 10)
+		c.dbg.SetBreakPoint("nest", 2)
+		c.start(1, "nest", c16ProgNest)
+		c.quiesce()
+		c.dbg.Continue(1, util.StepOver)
 	case "finished":
 		c.start(1, "short", c16ProgShort)
 	case "finerr":
@@ -398,7 +418,7 @@ func c16NewCase(scn string, gsGiven bool) *c16Case {
 }
 
 var c16Scenarios = []string{"none", "bos", "top", "running", "nest1", "nest2", "nest3", "errsusp", "finished", "finerr", "two",
-	"errmap", "errnest", "errinf"}
+	"errmap", "errnest", "errinf", "stepbp1", "stepbp2", "stepbp3"}
 
 func (c *c16Case) end() {
 	c16Cases.Delete(c.gs)
@@ -835,6 +855,17 @@ func c16Gen(g *Gen) {
 			emit(scn, true, "inject 1 a "+ex, "inject 1 b 1 + 1", "extract 1 a dst")
 		}
 	}
+	// a write-lock command, then read commands, while a thread waits at a break point it reached
+	// during a step-over / step-out (a read lock kept by the waiting thread is a HANG)
+	for _, scn := range []string{"stepbp1", "stepbp2", "stepbp3"} {
+		emit(scn, true, "break prog:1", "status", "describe 1")
+		emit(scn, true, "rmbreak nest", "status")
+		emit(scn, true, "inject 1 nv 1+1", "extract 1 nv dst", "cont 1 stepover", "break prog:1", "status")
+		emit(scn, true, "status", "describe 1", "disablebreak nest:6", "cont 1 stepout", "breakonstart", "status")
+	}
+	emit("nest1", true, "break nest:2", "cont 1 stepover", "break prog:1", "status", "describe 1")
+	emit("nest3", true, "break nest:3", "cont 1 stepout", "rmbreak nest", "status")
+	emit("top", true, "break prog:6", "cont 1 stepover", "cont 1 stepover", "!release", "break prog:1", "status")
 	// commands from two goroutines at once
 	nconc := 3
 	if g.Thorough() {
@@ -856,6 +887,7 @@ func c16Gen(g *Gen) {
 				continue
 			}
 			errData := scn == "errmap" || scn == "errnest" || scn == "errinf"
+			stepBp := strings.HasPrefix(scn, "stepbp")
 			args := c16ArgsSmall
 			if g.Thorough() && gsGiven && !errData {
 				args = c16Args
@@ -872,6 +904,9 @@ func c16Gen(g *Gen) {
 				}
 				for _, a := range args {
 					for _, b := range args {
+						if stepBp && !g.Thorough() && g.R.Intn(4) != 0 {
+							continue // quick tier: the two-argument matrix is sampled in the step/break-point scenarios
+						}
 						g.Count("len2")
 						emit(scn, gsGiven, cmd+" "+a+" "+b)
 					}
@@ -887,6 +922,9 @@ func c16Gen(g *Gen) {
 			for _, t := range tids {
 				for _, v := range vars {
 					for _, x := range third {
+						if stepBp && !g.Thorough() && g.R.Intn(4) != 0 {
+							continue
+						}
 						g.Count("len3")
 						emit(scn, gsGiven, "extract "+t+" "+v+" "+x)
 						emit(scn, gsGiven, "inject "+t+" "+v+" "+x)
@@ -1029,6 +1067,27 @@ func c16Tool(args []string) int {
 		fmt.Printf("  (%s, %s, %s)%s\n", strconv.Quote(k), strconv.Quote(types[k]), strconv.Quote(checks[types[k]]), sep)
 	}
 	fmt.Println("]")
+	// defer statements in ecalDebugger.VisitState (its unlocks must not be deferred: the thread waits inside)
+	defers := -1
+	if dfile, err := goparser.ParseFile(fset, filepath.Join(repoDir(), "interpreter", "debug.go"), nil, 0); err == nil {
+		for _, d := range dfile.Decls {
+			if fd, ok := d.(*ast.FuncDecl); ok && fd.Name.Name == "VisitState" && fd.Recv != nil && fd.Body != nil {
+				defers = 0
+				ast.Inspect(fd.Body, func(n ast.Node) bool {
+					if _, ok := n.(*ast.DeferStmt); ok {
+						defers++
+					}
+					return true
+				})
+			}
+		}
+	}
+	if defers < 0 {
+		fmt.Fprintln(os.Stderr, "VisitState not found in interpreter/debug.go")
+		return 2
+	}
+	fmt.Println("/-- number of `defer` statements in ecalDebugger.VisitState (interpreter/debug.go) -/")
+	fmt.Printf("def visitStateDefers : Nat := %d\n", defers)
 	fmt.Println("end Ecal.Gen.C16")
 	return 0
 }
